@@ -60,13 +60,13 @@ def expected_views(views, pairs, html):
     return out
 
 
-def one(ctx, data, meta, rng, tmpdir, html):
+def one(ctx, data, meta, rng, tmpdir, html, pairs=None, nrewrites=None):
     from docx2python.utilities import replace_docx_text, replace_root_text
     from docx2python import docx2python
     ctx.evaluations += 1; good = True
-    pairs = pick_pairs(rng, data)
+    pairs = pairs or pick_pairs(rng, data)
     cps = [p for t, p in src.content_parts(data) if t != 'comments']
-    vd, applied = variant(rng, data, cps, rng.randint(2, 10))
+    vd, applied = variant(rng, data, cps, rng.randint(2, 10) if nrewrites is None else nrewrites)
     case = case_payload(vd, html=html, pairs=pairs, original_b64=case_payload(data)['archive_b64'], rewrites=applied)
     fin = os.path.join(tmpdir, 'in.docx'); fout = os.path.join(tmpdir, 'out.docx')
     open(fin, 'wb').write(vd)
@@ -115,9 +115,43 @@ def one(ctx, data, meta, rng, tmpdir, html):
     return good
 
 
+def one_simple(ctx, data, pairs, tmpdir, label):
+    """needles that also occur outside visible text (inter-element whitespace, field codes): only visible text may change"""
+    from docx2python.utilities import replace_docx_text
+    ctx.evaluations += 1
+    fin = os.path.join(tmpdir, 'in.docx'); fout = os.path.join(tmpdir, 'out.docx'); open(fin, 'wb').write(data)
+    case = case_payload(data, html=False, pairs=pairs, original_b64=case_payload(data)['archive_b64'], rewrites=[], label=label)
+    with warnings.catch_warnings():
+        warnings.simplefilter('ignore')
+        try: replace_docx_text(fin, fout, *pairs)
+        except Exception as e: ctx.fail('replace_docx_text raised', case, type(e).__name__); return
+    i0, _ = pk.both(ctx.drv, data, False, True, want=['plain', 'text']); i1, m1 = pk.both(ctx.drv, open(fout, 'rb').read(), False, True, want=['plain', 'text'])
+    exp = expected_views({k: i0[k] for k in VIEWS[:5] + ['text']}, pairs, False)
+    for k in VIEWS[:5] + ['text']:
+        if i1.get(k) != exp[k]:
+            d = first_diff(exp[k], i1.get(k))
+            ctx.fail("the output's extraction is not the input's extraction with every occurrence replaced", {**case, 'attribute': k}, {'where': d[0], 'expected': d[1], 'got': d[2]}); return
+    ctx.validated += 1
+
+
 def run(ctx):
     tmpdir = tempfile.mkdtemp(prefix='d2pv-c17-')
     try:
+        from gen.probes import docx, p, r
+        fixed = [
+            (docx(p(r('«1»foo'), r('X«2»'))), [('X«2»', 'a\n')], 'replacement ending in a line break'),
+            (docx(p(r('«1»foo'), r('X«2»'))), [('«1»', '\nq')], 'replacement starting with a line break'),
+            ('<pretty>', [('«1»a b', '«1»a_b')], 'pretty-printed part'),
+            (docx(p(r('«1»page '), '<w:r><w:fldChar w:fldCharType="begin"/></w:r><w:r><w:instrText xml:space="preserve"> PAGE </w:instrText></w:r><w:r><w:fldChar w:fldCharType="end"/></w:r>', r('«2» PAGE of'))), [(' PAGE ', ' P\nG ')], 'needle also in a field code'),
+        ]
+        for data, pairs, label in fixed:
+            if data == '<pretty>':
+                data = docx('\n  ' + p('\n    ' + r('«1»a b') + '\n  ') + '\n  ' + p(r('«2»c d')) + '\n')
+                pairs = [(' ', '_')]
+            ctx.count('fixed:' + label)
+            if label == 'needle also in a field code' or label == 'pretty-printed part':
+                one_simple(ctx, data, pairs, tmpdir, label)
+            else: one(ctx, data, None, random.Random(1), tmpdir, False, pairs=pairs, nrewrites=0)
         n = 60 if ctx.quick else 5000
         for pkg, meta, rng in stream(ctx, PROF, n):
             one(ctx, pkg.to_bytes(), meta, rng, tmpdir, rng.random() < 0.4)
